@@ -56,6 +56,23 @@ Proof.
 Qed.
 Print Assumptions C05_differ_in_dir_or_stem.
 
+(* lex sources (translated to <suffix>.yy.c first): sources with different (absoluteness, directory
+   components, stem) get different generated sources, with and without a directory *)
+Theorem C05_lex_sources_distinct : forall d s1 s2 o1 o2,
+  (match d with Some d => wf_comps (pcomps d) | None => True end) ->
+  wf_comps (pcomps s1) -> wf_comps (pcomps s2) -> pcomps s1 <> nil -> pcomps s2 <> nil ->
+  reserved_free (lex_name (pcomps s1)) -> reserved_free (lex_name (pcomps s2)) ->
+  src_name s1 <> src_name s2 ->
+  lex_source_of true d s1 = Ok o1 -> lex_source_of true d s2 = Ok o2 -> o1 <> o2.
+Proof. exact lex_sources_distinct. Qed.
+Print Assumptions C05_lex_sources_distinct.
+
+(* a/scan.l and b/scan.l of one target keep their directories below the intermediate directory *)
+Example ex_lex_same_basename :
+  lex_source_of true (Some (P RBuild [STR "prog.int"])) (P RSrc [STR "a"; STR "scan.l"]) = Ok (P RBuild [STR "prog.int"; STR "a"; STR "scan.yy.c"]) /\
+  lex_source_of true (Some (P RBuild [STR "prog.int"])) (P RSrc [STR "b"; STR "scan.l"]) = Ok (P RBuild [STR "prog.int"; STR "b"; STR "scan.yy.c"]).
+Proof. split; vm_compute; reflexivity. Qed.
+
 (* two steps naming one output: the emitter answers with an error, never with a list of rules *)
 Theorem C05_ext_only_collision_rejected : forall (T : Type) (esc : T -> str) mk steps a b c s1 s2 o,
   steps = a ++ s1 :: b ++ s2 :: c -> In o s1 -> In o s2 ->
